@@ -139,3 +139,12 @@ def codepoints(s):
             if isinstance(s, LazyIntSymbolicStr):
                 return list(s._codepoints)
     return [ord(c) for c in s]
+
+
+def concrete(x):
+    """pin a symbolic value to one concrete value on this path (the engine explores the other values on other paths);
+    used deliberately for small enumerated dimensions (DESIGN 2.4)"""
+    if chplugin.SYMBOLIC:
+        from crosshair.core import realize
+        return realize(x)
+    return x
